@@ -10,6 +10,7 @@ CONSTANTS
   AllowNil = FALSE
   ChainOnly = TRUE
   WriteNewest = TRUE
+  AllowReduce = FALSE
   AllowCopy = FALSE
   EarlyStop = FALSE
   Emit = TRUE
